@@ -836,6 +836,34 @@ class GenExt(Gen):
         if k < 0.8 or not sg:
             return ('field', self.idexpr(cx))
         return ('glob', r.choice(sg))         # a chunk target that is a global: declared in the script header
+    def factory_script(self):
+        """a factory: methods with the implicit me parameter, instance variables declared in mNew, me-calls"""
+        r = self.rng
+        inst = r.sample(['myLength', 'myMaster', 'pCount', 'pName'], r.choice([1, 2, 3]))
+        mnames = ['mNew'] + r.sample(['mReset', 'mPush', 'mGet', 'mShow', 'mName'], r.choice([1, 2, 3]))
+        handlers = []
+        for mn in mnames:
+            idents = r.sample(IDENTS, len(IDENTS))
+            args = ['me'] + [idents.pop() for _ in range(r.choice([0, 1, 2]))]
+            locs = [idents.pop() for _ in range(r.choice([0, 1, 2]))]
+            cx = {'locals': locs, 'args': args[1:], 'globals': [], 'sglobals': [], 'props': inst, 'lfuncs': []}
+            body = []
+            for _ in range(r.choice([1, 2, 4])):
+                k = r.random()
+                if k < 0.35:
+                    body.append(('set', ('prop', r.choice(inst)), self.expr(cx, 2)))
+                elif k < 0.6:
+                    body.append(('mcall', ('me',), r.choice(mnames[1:]), [self.expr(cx, 1) for _ in range(r.choice([0, 1, 2]))]))
+                elif k < 0.8 and locs:
+                    body.append(('set', ('loc', r.choice(locs)), ('mcall', ('me',), r.choice(mnames[1:]),
+                                                                    [self.expr(cx, 1) for _ in range(r.choice([0, 1]))])))
+                else:
+                    body.append(self.simple(cx, 2))
+            if r.random() < 0.5:
+                body.append(('call', 'return', [self.expr(cx, 1)]))
+            handlers.append({'name': mn, 'args': args, 'locals': locs, 'body': body, 'method': True})
+        return finish_script({'props': inst, 'globals': [], 'factory': r.choice(['makeStack', 'Counter']), 'scr_num': 2,
+                              'handlers': handlers})
     def ext_script(self):
         def body(g, cx):
             n = g.rng.choice([2, 4, 6, 10])
